@@ -132,7 +132,8 @@ Lemma step_port_plain_subtree walk_sub rt ids i qn qm qs buf :
   let b' := if last_is_slash b then b else b ++ [47] in
   step_port walk_sub rt ids i (Port qn qm (Some qs)) buf =
   match rt with
-  | Some o => if o_null o b' || o_disabled o b' then WOk [] b'
+  | Some o => if o_null o b' || o_disabled o b'
+              then WOk (skipped_reports rt ids i (Port qn qm (Some qs)) b') b'
               else walk_sub (Port qn qm (Some qs)) (ids ++ [i]) b'
   | None => walk_sub (Port qn qm (Some qs)) (ids ++ [i]) b'
   end.
